@@ -5,13 +5,11 @@ import (
 	"fmt"
 	"os"
 	"path/filepath"
-	"runtime"
 	"runtime/debug"
 	"strings"
 	"sync"
 	"sync/atomic"
 	"testing"
-	"time"
 
 	kv "github.com/XiXi-2024/xixi-kv"
 	"pgregory.net/rapid"
@@ -242,31 +240,14 @@ func runC09(c *c09Case) (feat map[string]bool, fail *kvh.Fail) {
 	close(start)
 	done := make(chan struct{})
 	go func() { wg.Wait(); close(done) }()
-	select {
-	case <-done:
-	case <-time.After(150 * time.Second):
-		// watchdog: are all clients parked in lock/channel waits?
-		buf := make([]byte, 1<<20)
-		n := runtime.Stack(buf, true)
-		dump := string(buf[:n])
-		stuck, runnable := 0, 0
-		for _, g := range strings.Split(dump, "\n\n") {
-			if !strings.Contains(g, "runC09.func") {
-				continue
-			}
-			if strings.Contains(g, "[semacquire") || strings.Contains(g, "[sync.") || strings.Contains(g, "[chan ") || strings.Contains(g, "[select") {
-				stuck++
-			} else {
-				runnable++
-			}
-		}
-		if stuck > 0 && runnable == 0 {
-			msg := fmt.Sprintf("after 150 s %d client goroutines are parked in lock/channel waits and none is runnable: deadlock\n%s", stuck, dump[:min(len(dump), 6000)])
+	if verdict, dump := waitOrDeadlock(done, "runC09.func"); verdict != "done" {
+		if verdict == "deadlock" {
+			msg := "all client goroutines are parked in lock/channel waits, none is runnable, and nothing changed between two inspections 10 s apart: deadlock\n" + dump[:min(len(dump), 7000)]
 			path := kvh.StatsFor("C09").Violation("deadlock", c, msg)
 			fmt.Printf("VIOLATION-CANDIDATE sig=deadlock replay=%s\n%s\n", path, msg)
 			os.Exit(1)
 		}
-		fmt.Fprintf(os.Stderr, "C09 watchdog: clients still running after 150 s (inconclusive)\n%s\n", dump[:min(len(dump), 4000)])
+		fmt.Fprintf(os.Stderr, "C09 watchdog: clients still running after the limit (inconclusive)\n%s\n", dump[:min(len(dump), 4000)])
 		os.Exit(2)
 	}
 	if p := firstPanic.Load(); p != nil {
@@ -334,7 +315,7 @@ func TestC09(t *testing.T) {
 		"a race detector only sees races on the schedules that are executed; Close, Backup and the background merge ticker are not in the statement's call list and are not mixed in",
 		"documented error sets: nil everywhere, plus ErrKeyNotFound for Get/Batch.Get and ErrMergeIsProgress / ErrMergeRatioUnreached / ErrMergeFileIDConflict for Merge; anything else (ErrIndexUpdateFailed, ErrDataFileNotFound, ErrNoEnoughSpaceForMerge, EOF/CRC errors) is an internal-inconsistency error",
 		"a goroutine holding an uncommitted batch makes no other database call (API precondition)",
-		"the watchdog limit (150 s for programs that take milliseconds) decides nothing by itself: only 'every client parked in a lock/channel wait' is reported, anything else is inconclusive")
+		"deadlock is decided from goroutine wait states, not from elapsed time: every client goroutine parked in a sync lock / channel wait, none runnable, identical at two inspections 10 s apart; a run that merely takes long (300 s limit for programs that take milliseconds) is inconclusive")
 	defer finishProperty(st)
 	if !raceEnabled {
 		t.Fatalf("inconclusive: C09 must be built with -race")
